@@ -164,6 +164,9 @@ func (k Keeper) unstakeAllMatureValidators(ctx sdk.Ctx) {
 				ctx.Logger().Error("Could not finish unstaking mature validator: "+err.Error(), "at height: ", ctx.BlockHeight())
 				continue
 			}
+			// the node record disappears: sessions cached while it still existed
+			// would differ from sessions recomputed afterwards
+			k.ClearSessionCache()
 			k.FinishUnstakingValidator(ctx, val)
 			k.DeleteValidator(ctx, valAddr)
 		}
